@@ -229,7 +229,8 @@ def _rcr_spec(c, i):
         ("rows-of-other-names-kept:membership", FA([o], z3.Implies(z3.Not(in_list(L, o)), j1.member[o] == j0.member[o]), patterns=[j1.member[o]])),
         # (pointwise, see _inner_frame)
         ("rows-of-other-names-kept:entries", FA([o, v], z3.Implies(z3.Not(in_list(L, o)), z3.And(j1.rowhas(o, v) == j0.rowhas(o, v), j1.addr(o, v) == j0.addr(o, v))),
-                                                patterns=[j1.rowhas(o, v), j1.addr(o, v)])),
+                                                # (also triggered by the ENTRY-state terms: the clauses on the contents name the blocks by their entry address)
+                                                patterns=[j1.rowhas(o, v), j1.addr(o, v), j0.addr(o, v)])),
         ("rows-of-other-names-kept:contents", FA([o, v], z3.Implies(z3.And(z3.Not(in_list(L, o)), j0.has(o, v)), h1[j0.addr(o, v)] == h0[j0.addr(o, v)]), patterns=[h1[j0.addr(o, v)]])),
         ("frame:arrays-of-the-disciplines-untouched", below_wm_kept(h0, h1, "sp")),
         ("chained-rows", FA([j], z3.Implies(z3.And(0 <= j, j < i), row_done(j0, j1, dj, L.elems[j], "rd")), patterns=[L.elems[j]])),
